@@ -231,6 +231,12 @@ theorem writeLoop_preserves (P : DecCore → Prop)
       | .ok d' _ _ => P d')
     (par : Bool) : ∀ (f : Nat) (d : DecCore) (buf : Bytes) (em : List Field), P d →
       P (writeLoop par f d buf em).1 := by
+  have hff' : ∀ (buf : Bytes) (d : DecCore), P d → P (afterRepr buf d) := by
+    intro buf d h
+    unfold afterRepr
+    split
+    · exact h
+    · exact hff d h
   intro f
   induction f with
   | zero => intro d buf em h; exact h
@@ -244,11 +250,11 @@ theorem writeLoop_preserves (P : DecCore → Prop)
       · split <;> exact h
       · rename_i e d' heq
         rw [heq] at hp
-        exact hff _ hp
+        exact hff' _ _ hp
       · rename_i d' rest e heq
         rw [heq] at hp
         split
-        · exact ih _ _ _ (hff _ hp)
+        · exact ih _ _ _ (hff' _ _ hp)
         · exact hp
 
 /-! ### Write in terms of the loop -/
@@ -633,7 +639,7 @@ theorem writeLoop_emits_ok (m : Nat) (par : Bool) : ∀ (f : Nat) (d : DecCore) 
           · obtain ⟨dyn', hc, _⟩ := applyAction_shape d a
             rw [ha] at hc
             simp only [resCore] at hc
-            rw [hc]
+            rw [afterRepr_maxStrLen, hc]
             exact hm
           · intro x hx
             rcases List.mem_append.mp hx with hx | hx
